@@ -204,7 +204,9 @@ def run(R, out):
         for a in range(0, 260):
             try:
                 co = R.mkcode(base, co_code=b(enc(op, a, P)))
-                R.insts_record(co)
+                ir = R.insts_record(co)
+                if ir[-1 if not P["caches"] else [k for k, x in enumerate(ir) if x[1] == op][-1]][4][0] == "r":
+                    continue  # dis itself does not resolve this operand (e.g. 3.11 KW_NAMES -> UNKNOWN)
                 good.append(a)
             except Exception:
                 pass
